@@ -78,6 +78,9 @@ FifoOK(r) ==
         /\ r.fifo.events = r.direct.events
         /\ r.fifo.logins = [i \in 1..Len(r.direct.logins) |-> [pid |-> r.direct.logins[i].pid, cred |-> r.direct.logins[i].cred]]
 
+\* what the line added on the long-lived processor: once, and (for a third of the lines) once more right behind itself
+StreamObs(r) == (IF "stream" \in DOMAIN r THEN {r.stream} ELSE {}) \cup (IF "stream2" \in DOMAIN r THEN {r.stream2} ELSE {})
+
 \* C07, audit half: a record line parses to the same audit message with and without its newline
 \* (records of kind "auditnl", harness/cmd/auditnl)
 Checks(r) ==
@@ -94,13 +97,13 @@ Checks(r) ==
          <<"FramedUniversal", "framed" \in DOMAIN r => (Universal(r.framed, r.line) /\ CounterOK(r.framed, r.line))>>,
          \* the same line seen by ONE long-lived processor (one registry, one event sink for the whole run, as in the
          \* daemon): what the line adds is judged by the same predicates - no state may leak from line to line
-         <<"StreamExact", (exact /\ "stream" \in DOMAIN r) => (Exact(r.stream, r) /\ LoginOK(r.stream, r))>>,
-         <<"StreamUniversal", "stream" \in DOMAIN r => Universal(r.stream, r.line)>>,
-         <<"StreamCounter", "stream" \in DOMAIN r => CounterOK(r.stream, r.line)>>,
+         <<"StreamExact", exact => \A so \in StreamObs(r) : Exact(so, r) /\ LoginOK(so, r)>>,
+         <<"StreamUniversal", \A so \in StreamObs(r) : Universal(so, r.line)>>,
+         <<"StreamCounter", \A so \in StreamObs(r) : CounterOK(so, r.line)>>,
          \* a login handed to the correlator earlier keeps the event it was handed over with (the correlator renders the
          \* identity of later events from it: C01 rests on it)
-         <<"StreamLoginStable", "stream" \in DOMAIN r => r.stream.stable>>,
-         <<"StreamPeer", (r.fam = "hostile" /\ "stream" \in DOMAIN r) => PeerOK(r.stream, r)>>,
+         <<"StreamLoginStable", \A so \in StreamObs(r) : so.stable>>,
+         <<"StreamPeer", r.fam = "hostile" => \A so \in StreamObs(r) : PeerOK(so, r)>>,
          <<"Peer",      r.fam = "hostile" => PeerOK(o, r)>>,
          <<"FramedPeer", (r.fam = "hostile" /\ "framed" \in DOMAIN r) => PeerOK(r.framed, r)>> }
 
